@@ -9,6 +9,19 @@ from ..loader import ancestors, parent
 CURL = "core/curl.py"
 
 
+def _only_constants(fn: FuncInfo, name: ast.Name) -> bool:
+    """Every value the local can hold is a string constant (directly or as the arms of conditional expressions)."""
+    def const(v: ast.AST) -> bool:
+        if isinstance(v, ast.Constant) and isinstance(v.value, str):
+            return True
+        return isinstance(v, ast.IfExp) and const(v.body) and const(v.orelse)
+
+    if name.id in params_of(fn.node):
+        return False
+    vals = [v for _, v in assignments_to(fn.node, name.id)]
+    return bool(vals) and all(v is not None and const(v) for v in vals)
+
+
 def r1_shell_quoting(chk: Check) -> None:
     chk.rule("C09.R1", "FLOW(dynamic text -> shell command): every interpolation into the curl command is a constant, wrapped in shlex.quote, or the one documented exception `method` (an HTTP token)", floor=5)
     P = chk.project
@@ -52,6 +65,8 @@ def r1_shell_quoting(chk: Check) -> None:
                     chk.violation("C09.R1", fn, construct, f"quoted by the home-grown helper `{helper.name}` on some path instead of shlex.quote: hand-written shell quoting (e.g. double quotes, where backslash, $ and ` stay special) changes what curl sends for some inputs", fn.loc(part))  # type: ignore[union-attr]
             elif isinstance(e, ast.Name) and e.id in cmd_vars:
                 chk.ok("C09.R1", fn, construct, "the command built so far", fn.loc(part))
+            elif isinstance(e, ast.Name) and _only_constants(fn, e):
+                chk.ok("C09.R1", fn, construct, "a local that only ever holds string constants (a curl option name)", fn.loc(part))
             elif isinstance(e, ast.Name) and e.id == "method":
                 chk.ok("C09.R1", fn, construct, "named suppression: HTTP method token (no shell metacharacters in a token)", fn.loc(part))
             else:
@@ -66,8 +81,15 @@ def r1_shell_quoting(chk: Check) -> None:
         out = []
         for js in (x for x in walk_body(fn.node) if isinstance(x, ast.JoinedStr)):
             for i, part in enumerate(js.values):
-                if isinstance(part, ast.FormattedValue) and isinstance(part.value, ast.Call) and dotted(part.value.func) == "quote" and i > 0 and (const_str(js.values[i - 1]) or "").endswith(f" {flag} "):
+                if not (isinstance(part, ast.FormattedValue) and isinstance(part.value, ast.Call) and dotted(part.value.func) == "quote" and i > 0):
+                    continue
+                if (const_str(js.values[i - 1]) or "").endswith(f" {flag} "):
                     out.append(part.value.args[0])
+                elif i > 1 and const_str(js.values[i - 1]) == " " and isinstance(js.values[i - 2], ast.FormattedValue) and isinstance(js.values[i - 2].value, ast.Name) and _only_constants(fn, js.values[i - 2].value):
+                    # the option name is a local holding constants (`option = "--data-raw" if ... else "-d"`)
+                    consts = {c_.value for _, v_ in assignments_to(fn.node, js.values[i - 2].value.id) if v_ is not None for c_ in ast.walk(v_) if isinstance(c_, ast.Constant) and isinstance(c_.value, str)}
+                    if flag in consts or (flag == "-d" and consts & {"--data-raw", "--data", "--data-binary"}):
+                        out.append(part.value.args[0])
         return out
 
     hdr_args = quoted_after("-H")
@@ -75,7 +97,7 @@ def r1_shell_quoting(chk: Check) -> None:
     hdr_ok = False
     if hdr_args and loop_ is not None and all(isinstance(e_, ast.Name) for e_ in loop_.target.elts):  # type: ignore[attr-defined]
         k_, v_ = (e_.id for e_ in loop_.target.elts)  # type: ignore[attr-defined]
-        hdr_ok = any(f"f'{{{k_}}}: {{{v_}}}'" in canon(fn, a) for a in hdr_args)
+        hdr_ok = any(f"f'{{{k_}}}: {{{v_}}}'" in txt for a in hdr_args for txt in canon(fn, a))
     chk.expect(hdr_ok, "C09.R1", fn, "each header is passed as one quoted `-H 'Name: value'` argument", "header argument construction changed", fn.loc())
     chk.expect(any(is_var(a, "body") for a in quoted_after("-d")), "C09.R1", fn, "body passed as one quoted -d argument", "body argument construction changed", fn.loc())
     chk.expect(any(isinstance(x, ast.JoinedStr) and (fstring_head(x) or "").startswith("curl -X ") and len(x.values) > 1 and isinstance(x.values[1], ast.FormattedValue) and is_var(x.values[1].value, "method") for x in walk_body(fn.node)), "C09.R1", fn, "method passed with -X", "the method is not part of the command", fn.loc())
@@ -207,5 +229,47 @@ def r3_filter_headers(chk: Check) -> None:
     chk.decide(not extra, "C09.R3", ex, "no user-meaningful header is excluded", f"{sorted(extra)} are dropped from every reproduction command", ex.loc())
 
 
+def r5_curl_argument_semantics(chk: Check) -> None:
+    chk.rule("C09.R5", "curl's own argument syntax (table: `-H 'Name:'` / `-H 'Name: '` REMOVES the header, an empty value is spelled `-H 'Name;'`; `-d @x` / `--data @x` / `--data-binary @x` read the payload from file x, `--data-raw` does not): the generator distinguishes the empty header value and never hands a payload that may start with `@` to a file-reading data option", floor=2)
+    P = chk.project
+    fn = P.func("core/curl.py:generate")
+    g = cfg_of(fn)
+    # header loop: the f-string `{key}: {value}` and what is known about the value where it is built
+    hdr = [j for j in walk_body(fn.node) if isinstance(j, ast.JoinedStr) and any(isinstance(v, ast.Constant) and isinstance(v.value, str) and v.value.startswith(": ") for v in j.values)]
+    if not hdr:
+        chk.undecided("C09.R5", fn, "header argument text", "`Name: value` display not found", fn.loc())
+    for j in hdr:
+        vals = [v.value for v in j.values if isinstance(v, ast.FormattedValue)]
+        vname = unparse(vals[-1]) if vals else "value"
+        construct = "an empty header value is not written as `Name: `"
+        # (i) a conditional expression / statement that tests the value for emptiness selects another spelling
+        tests = [t for t in ast.walk(fn.node) if isinstance(t, (ast.IfExp, ast.If)) and any(lit[0] in (f"{vname} == ''", vname, f"len({vname})") for lit in literals_of(t.test, True))]
+        semi = [c for c in ast.walk(fn.node) if isinstance(c, (ast.JoinedStr, ast.Constant)) and ((isinstance(c, ast.Constant) and isinstance(c.value, str) and c.value.endswith(";")) or (isinstance(c, ast.JoinedStr) and c.values and isinstance(c.values[-1], ast.Constant) and str(c.values[-1].value).endswith(";")))]
+        if tests and semi:
+            chk.ok("C09.R5", fn, construct, "empty value spelled `Name;`", fn.loc(j))
+        else:
+            chk.violation("C09.R5", fn, construct, f"every header is written as `-H 'Name: {{{vname}}}'`; for an empty value that is `-H 'Name: '`, which tells curl to REMOVE the header: the replayed request lacks a header the original request carried (curl needs `-H 'Name;'` for an empty value)", fn.loc(j))
+    # data option
+    FILE_READING = ("-d", "--data", "--data-binary", "--data-ascii", "--data-urlencode")
+    opts = []
+    for c in ast.walk(fn.node):
+        if isinstance(c, ast.Constant) and isinstance(c.value, str):
+            for tok in c.value.split():
+                if tok in FILE_READING or tok == "--data-raw":
+                    opts.append((tok, c))
+    if not opts:
+        chk.undecided("C09.R5", fn, "payload option", "no curl data option found", fn.loc())
+    for tok, c in opts:
+        construct = f"payload passed with `{tok}`"
+        if tok == "--data-raw":
+            chk.ok("C09.R5", fn, construct, "no `@file` interpretation", fn.loc(c))
+            continue
+        guarded = any(isinstance(x, ast.Call) and last_attr(x) == "startswith" and x.args and isinstance(x.args[0], ast.Constant) and x.args[0].value == "@" for x in ast.walk(fn.node))
+        if guarded:
+            chk.ok("C09.R5", fn, construct, "a payload starting with `@` takes another option", fn.loc(c))
+        else:
+            chk.violation("C09.R5", fn, construct, f"`{tok} <payload>` makes curl read the payload from a FILE when it starts with `@`: a text body such as `@notes.txt` is replayed as the contents of a local file (or an empty body), not as the bytes that were sent; `--data-raw` has no such rule", fn.loc(c))
+
+
 def rules(tier: str) -> list:  # type: ignore[type-arg]
-    return [r1_shell_quoting, r2_real_headers, r3_filter_headers]
+    return [r1_shell_quoting, r2_real_headers, r3_filter_headers, r5_curl_argument_semantics]
